@@ -11,6 +11,7 @@ V: key derivation and signing for seeded seeds / message lengths 0..2000
    GenerateKey of both implementations on identical failing reader scripts.
    Trace_SigForks requires identical verdicts / bytes / reader consumption."""
 import vlib
+from checks import ages_common as ag
 from checks import verdicts_common as vc
 from checks import sigforks_common as sc
 
@@ -19,7 +20,9 @@ def run(ctx):
     ctx.model_check("Entropy", "MC_Entropy.cfg", workers=2)
     n, cases, kinds = sc.run(ctx, "ed25519")
     vn, vcases, vdepth = vc.run(ctx, ["ed25519"])   # Verdicts.tla: every history of presentations
+    an, acases = ag.run(ctx, ['ed25519'])   # Ages.tla: every schedule of phases on one long-lived object, each phase scaled to n operations
     return ctx.finish({
+        **ag.coverage(an, acases),
         "traces_validated_against_impl": n,
         "evaluations": len(cases),
         "distinct_nontrivial": len({vlib.json.dumps(c, sort_keys=True) for c in cases}),
@@ -37,6 +40,8 @@ def run(ctx):
 
 
 def replay(ctx, path):
+    if vlib.json.load(open(path)).get("family") == "ages":
+        return ag.replay(ctx, path)
     if vlib.json.load(open(path)).get("family") == "verdicts":
         return vc.replay(ctx, path)
     return ctx.replay_case(path, "sigforks", "Trace_SigForks")
